@@ -14,6 +14,7 @@ package main
 
 import (
 	"bytes"
+	"encoding/json"
 	"fmt"
 	"os"
 	"os/exec"
@@ -440,13 +441,40 @@ func run(ctx *common.Ctx) error {
 	seq := 0
 
 	type caseInfo struct {
-		Shape   string `json:"shape"`
-		Message string `json:"message"`
-		Request string `json:"request"`
+		Shape   string        `json:"shape"`
+		Message string        `json:"message"`
+		Request string        `json:"request"`
+		Tree    *mimegen.Node `json:"tree,omitempty"` // with the positions of the rendered message
+		Msg     []byte        `json:"msg,omitempty"`  // the appended bytes
+	}
+	// --replay FILE: only the message (or the overflow request) of that file
+	var replayCase *caseInfo
+	replayOverflow := ""
+	if ctx.Replay != "" {
+		var rf struct {
+			Case caseInfo `json:"case"`
+		}
+		b, err := os.ReadFile(ctx.Replay)
+		if err != nil {
+			return err
+		}
+		if err := json.Unmarshal(b, &rf); err != nil {
+			return err
+		}
+		if rf.Case.Tree != nil {
+			replayCase = &rf.Case
+		} else {
+			replayOverflow = rf.Case.Request
+		}
 	}
 
 	nMsgs := ctx.Budget(140, 1500)
 	bigSizes := []int{256*1024 - 300, 256 * 1024, 256*1024 + 1, 600 * 1024}
+	if replayCase != nil {
+		nMsgs, bigSizes = 1, nil
+	} else if replayOverflow != "" {
+		nMsgs, bigSizes = 0, nil
+	}
 	for mi := 0; mi < nMsgs+len(bigSizes); mi++ {
 		ascii := mi%2 == 0
 		big := mi >= nMsgs
@@ -465,8 +493,17 @@ func run(ctx *common.Ctx) error {
 		}
 		layout := &mimegen.Layout{Rng: rng, MixEOL: mix, Fold: rng.Chance(0.5), LowerHN: rng.Chance(0.3)}
 		msg := mimegen.Render(tree, layout)
+		if replayCase != nil {
+			tree, msg = replayCase.Tree, replayCase.Msg
+		}
 		shape := mimegen.Shape(tree)
-		info := func(req string) caseInfo { return caseInfo{Shape: shape, Message: short(msg), Request: req} }
+		info := func(req string) caseInfo {
+			ci := caseInfo{Shape: shape, Message: short(msg), Request: req}
+			if !big {
+				ci.Tree, ci.Msg = tree, msg
+			}
+			return ci
+		}
 		ctx.Current("APPEND "+shape, info("APPEND"))
 		r, err := c.Append("box", "", msg)
 		if err != nil {
@@ -748,6 +785,9 @@ func run(ctx *common.Ctx) error {
 	// message of the child: common.Message("overflow","0123456789") + ID line; the child returns BODY[] too.
 	for _, spec := range []string{"1." + maxInt64, maxInt64 + ".1", maxInt64 + "." + maxInt64, "0." + maxInt64, "5.9223372036854775803", "9223372036854775806.2"} {
 		canon := "FETCH BODY[]<" + spec + "> (offset+count at the end of the int64 range)"
+		if ctx.Replay != "" && !strings.Contains(replayOverflow, "<"+spec+">") {
+			continue
+		}
 		ctx.Current(canon, map[string]string{"request": "BODY.PEEK[]<" + spec + ">"})
 		res.Evaluations++
 		res.Count("overflow-probe")
